@@ -412,11 +412,19 @@ def reference_node(entry):
 def module_consts(repo, f):
     """Module-level NAME = <number|string> constants visible to f."""
     from .astutil import try_fold
-    consts = {}
+    from . import normal
+
+    class Consts(dict):
+        pass
+    consts = Consts()
+    consts.exprs = {}
     for nm, v in f.module.assigns.items():
         k = try_fold(v)
         if isinstance(k, (int, float, str)) and not isinstance(k, bool):
             consts[nm] = k
+        elif normal._pure_expr(v) and not any(isinstance(x, ast.Name) and x.id not in ('np', 're', 'numpy') and x.id not in f.module.assigns
+                                               and x.id not in f.module.imports for x in ast.walk(v)):
+            consts.exprs[nm] = v
     return consts
 
 
